@@ -629,6 +629,58 @@ fn exec(
             st.verif_set_step_fuel(op.get("fuel").and_then(|x| x.as_u64()));
             ok(&mut r);
         }
+        "audit" => {
+            // content audit (hook): one row per object, plus relative-path rows for pairs of nearby and random objects
+            let rows = st.verif_content_audit();
+            let n = rows.len();
+            let span = op.get("span").and_then(|x| x.as_u64()).unwrap_or(4) as usize;
+            let extra = op.get("random_pairs").and_then(|x| x.as_u64()).unwrap_or(200) as usize;
+            let mut pairs: Vec<(usize, usize)> = Vec::new();
+            let stride = std::cmp::max(1, n / op.get("max_from").and_then(|x| x.as_u64()).unwrap_or(400) as usize);
+            let mut i = 0;
+            while i < n {
+                for d in 1..=span {
+                    if i + d < n {
+                        pairs.push((i, i + d));
+                        pairs.push((i + d, i));
+                    }
+                }
+                if let Some(p) = rows[i].parent {
+                    pairs.push((i, p));
+                    pairs.push((p, i));
+                    if let Some(g) = rows[p].parent {
+                        pairs.push((i, g));
+                        pairs.push((g, i));
+                    }
+                }
+                i += stride;
+            }
+            let mut x: u64 = op.get("pair_seed").and_then(|x| x.as_u64()).unwrap_or(12345) | 1;
+            for _ in 0..extra {
+                x = x.wrapping_mul(6364136223846793005).wrapping_add(1442695040888963407);
+                let a = (x >> 33) as usize % n.max(1);
+                x = x.wrapping_mul(6364136223846793005).wrapping_add(1442695040888963407);
+                let b = (x >> 33) as usize % n.max(1);
+                if a != 0 && b != 0 {
+                    pairs.push((a, b));
+                }
+            }
+            pairs.retain(|(a, b)| *a != 0 && a != b);
+            let rel = st.verif_relative_audit(&pairs);
+            let rows_j: Vec<J> = rows
+                .iter()
+                .map(|w| json!({"i": w.ordinal, "p": w.parent, "x": w.index, "n": w.name, "k": w.kind, "t": w.text, "f": w.flags,
+                                "path": w.path, "self": w.resolves_to_self, "approx": w.approximate, "re": w.reparsed,
+                                "rerel": w.reparsed_relative, "reeq": w.reparsed_eq, "heq": w.hash_eq}))
+                .collect();
+            let rel_j: Vec<J> = rel
+                .iter()
+                .map(|w| json!({"a": w.from, "b": w.to, "rel": w.relative, "isrel": w.is_relative, "ok": w.resolves,
+                                "rt": w.roundtrip, "re": w.reparsed, "reeq": w.reparsed_eq, "heq": w.hash_eq}))
+                .collect();
+            ok(&mut r);
+            r.insert("val".into(), json!({"rows": rows_j, "rel": rel_j}));
+        }
         "poll" | "nop" => ok(&mut r),
         "hierarchy" => {
             ok(&mut r);
